@@ -197,6 +197,33 @@ func sweepOne(r *ev.Run, rep *scopeReport, mode string, rs *realSet, z, zd, nPro
 			ids = []int{zd, z} // the list as written: half of the pairs with the deeper id first
 		}
 	}
+	if mode == "C06" {
+		// the last representable position inside the extent: a triangle with one vertex ~1e-8 CRS units inside the top
+		// right corner of the extent (the pixel grid, whose pixel size is truncated, can end before the extent does)
+		maxX := new(big.Rat).Add(rs.CornerX, new(big.Rat).Mul(pixel, big.NewRat(size, 1)))
+		maxY := new(big.Rat).Add(rs.CornerY, new(big.Rat).Mul(pixel, big.NewRat(size, 1)))
+		fx := math.Nextafter(ratF(maxX)-8e-9, math.Inf(-1))
+		fy := math.Nextafter(ratF(maxY)-8e-9, math.Inf(-1))
+		if new(big.Rat).SetFloat64(fx).Cmp(maxX) < 0 && new(big.Rat).SetFloat64(fy).Cmp(maxY) < 0 {
+			poly := geom.Polygon{{{fx, fy}, {fx - 3*pixelF, fy}, {fx, fy - 3*pixelF}}}
+			for _, cfg := range cfgs {
+				var pan any
+				func() {
+					defer func() { pan = recover() }()
+					_ = snap.SnapPolygon(poly, rs.TMS, ids, cfg)
+				}()
+				rep.Calls++
+				rep.Transitions++
+				if pan != nil {
+					sig := fmt.Sprintf("panic:%s:%s:deepest-id%d", sweepPanicClass(pan), rs.Name, zd)
+					r.Violation(sig, fmt.Sprintf("%s ids %v, triangle with a vertex %.3g inside the top right corner of the extent: %v", rs.Name, ids, 8e-9, pan),
+						sweepCase{Set: rs.Name, ID: z, Deepest: zd, Anchor: [2]string{"last-position", "last-position"}, Cfg: cfg, Polygon: poly, Got: fmt.Sprint(pan)})
+				} else {
+					rep.Nontrivial++
+				}
+			}
+		}
+	}
 	for _, ax := range anchors {
 		for _, ay := range anchors {
 			for pi := 0; pi < nProbes; pi++ {
